@@ -48,6 +48,8 @@ type Exec struct {
 	views      map[string]*viewCells
 	iters      []iterInfo
 	iterByName map[string]*Cell
+	ghostLists map[string]*Cell    // ghost lists of the function under verification, by name
+	chanHist   map[ssa.Value]*Cell // per channel parameter: the values received from it so far (ghost list recv_<name>)
 	seq        int
 }
 
@@ -1322,6 +1324,9 @@ func (ex *Exec) rangeFacts(t Term, typ types.Type, depth int) []Term {
 			}
 		}
 	case *types.Struct:
+		if t.Sort.Kind != KData || len(t.Sort.Fields) != u.NumFields() {
+			break // an opaque library struct
+		}
 		for i := 0; i < u.NumFields(); i++ {
 			out = append(out, ex.rangeFacts(FieldOf(t, i), u.Field(i).Type(), depth-1)...)
 		}
